@@ -10,8 +10,8 @@ model run: the same chunks, arrival times and handler shape through EasyNet/Mode
 oracle   : judged from the case and the real lines only — handler-observed sequence == the frames the case was built
            from (pkt -> value, malformed -> parse error at its position), complete when the session ended by EOF;
            TimeoutError only if no complete request had arrived before the deadline; every started generator ended
-           exactly once, never two at a time; nothing delivered after the handler closed the client; connection closed;
-           responses on the wire.
+           exactly once, never two at a time; nothing delivered and NO GENERATOR STARTED after the handler closed the
+           client (rule 3b); connection closed; responses on the wire.
 
 case format
   spec, path ("copy"|"buffered"), layer ("low"|"high"|"tcp"), conv
@@ -20,6 +20,10 @@ case format
   onconn : null | [step]      gens : [[step]]      step = {sleep (units), timeout (null | subticks), resp, close}
            optional step field  pre_close : the handler closes the client BEFORE asking for this request (after the sleep;
            at step 0 = in the preamble of the generator, i.e. "closing the client at request #0")   [oracle only]
+           optional step field  by : "helper" - the close of this step (close / pre_close) is done by a task the handler starts
+           and waits for
+  oc_coro : (onconn null, layers high / tcp) on_connection() as a coroutine that does something:
+           {sleep, resp, close, after (sleep after the close), by}                                        [oracle only]
   after_close : what a read on the transport does once the handler has closed it (c15_run.AFTER_CLOSE; default "ebadf")
   resp_packet : enc_val
   conn : "single" (default) | "stapled" (the library's AsyncStapledStreamTransport over two in-memory half transports whose
@@ -90,7 +94,8 @@ RULE = (
     "case = serializer config x frames (valid / malformed / over-limit / truncated tail) x cut sizes x arrival delays x end "
     "(eof, reset, filtered or not) x receive path x layer x handler shape (incl. closing the client before request #j, j = 0 "
     "in the preamble of the first generator of every shape; polling with `yield 0` over pipelined requests) x behaviour of a "
-    "read after a local close x connection kind (single in-memory transport | AsyncStapledStreamTransport over two half "
+    "read after a local close x where the client is closed (on_connection as a coroutine / as a generator that returns or yields "
+    "again, the last step of a handle() generator that returns; by the handler or through a helper task) x connection kind (single in-memory transport | AsyncStapledStreamTransport over two half "
     "transports with 0-3 checkpoints in aclose()) | loopback case = closer (helper task, on_connection task, other client's "
     "handler, generator, peer) x moment (parked in the transport receive at request #k | busy) x aclose / aclose_forcefully "
     "x spawn x requests per generator x yielded timeout x on_connection kind x receive path x a helper task parked inside "
@@ -154,6 +159,8 @@ def _model_layer(case: dict) -> str:
 def model_input(case: dict, real: list[str]):
     if case.get("layer") in ("loop", "tie"):
         return None     # real loopback sockets (closers in other tasks / arrivals tied with a deadline): oracle only
+    if case.get("oc_coro"):
+        return None     # an on_connection() coroutine that sleeps / greets / closes the client: oracle only
     if _has_pre_close(case):
         return None     # closing before asking for a request is not a construct of the model: oracle only
     if case.get("conn") == "tls" and not _tls_modelled(case):
@@ -317,11 +324,22 @@ def oracle(case: dict, real: list[str]) -> str | None:
     seen_close = False
     for e in events:
         if e[0] == "hclose":
+            if not seen_close:
+                closer, t_close = e[1], e[2]
             seen_close = True
         elif seen_close and e[0] in ("item", "timeout", "conn", "oserror"):
             what = "a request" if e[0] == "item" else f"an exception ({e[0]})"
             return (f"after the handler had closed the client (before request #{e[3] if e[0] != 'item' else e[3] - 1}) "
                     f"{what} was delivered to generator {e[1]} instead of closing it")
+        elif seen_close and e[0] == "gen-start":
+            # 3b. "when the handler closes the client, the active generator is closed exactly once and the connection is
+            #     closed": the close is the end of the story for that connection - no generator becomes active any more
+            #     (wherever the client was closed: on_connection as a coroutine or a generator, a handle() generator that
+            #     returns right after the close, by the handler itself or by a helper task it waited for)
+            return (f"after the handler had closed the client ({_close_text(case, closer)} at {cr.show_t(t_close)}, {e[3]} "
+                    f"request(s) delivered) a NEW generator ({'handle() #' + e[1] if e[1] != 'oc' else 'on_connection'}) was "
+                    f"started on the closed client at {cr.show_t(e[2])}: 1 generator start after the close, expected 0 "
+                    f"(layer {case.get('layer', 'low')}, {case['path']} receive path)")
     # 2c. "when the client disconnects or the handler closes the client, the active generator is closed ... and the connection
     #     is closed" - and not before: as long as the peer is there (it stays until `t_end`, whatever the way it leaves then)
     #     and the handler has not closed the client, no generator is closed and no connection error is thrown into one
@@ -425,6 +443,17 @@ def oracle(case: dict, real: list[str]) -> str | None:
     return None
 
 
+def _close_text(case: dict, closer: str) -> str:
+    by = ""
+    if closer == "oc":
+        st = case.get("oc_coro") if case.get("onconn") is None else None
+        if st is not None:
+            by = " through a helper task" if st.get("by") == "helper" else ""
+            return "in the on_connection() coroutine" + by
+        return "in the on_connection() generator"
+    return f"in handle() generator #{closer}"
+
+
 def _conn_text(case: dict) -> str:
     if case.get("conn") == "tls":
         return (f" (TLS connection: AsyncTLSStreamTransport over an in-memory wire, {case.get('tls_max', '1.3')}, "
@@ -476,6 +505,10 @@ def nontrivial(case: dict, real: list[str]) -> str | None:
         feats.append("bad")
     if any(ln.startswith("closed-by-handler") for ln in real):
         feats.append("hclose")
+        if case.get("oc_coro") and case.get("onconn") is None:
+            feats.append("occoro")
+        if any(ln.startswith("closed-by-handler oc") for ln in real):
+            feats.append("occlose")         # closed inside on_connection()
         first = next((ln for ln in real if ln.startswith(("req ", "err ", "closed-by-handler"))), "")
         if first.startswith("closed-by-handler") and _has_pre_close(case):
             feats.append("close0")          # closed before request #0 was asked for
@@ -531,12 +564,25 @@ def shrink(case: dict):
             for key, val in (("sleep", 0), ("timeout", None), ("resp", False), ("close", False), ("pre_close", False)):
                 if s.get(key) not in (val, None) or (key == "timeout" and s.get(key) is not None):
                     yield {**case, "gens": gens[:i] + [g[:j] + [{**s, key: val}] + g[j + 1:]] + gens[i + 1:]}
+    if case.get("oc_coro"):
+        yield {k: v for k, v in case.items() if k != "oc_coro"}
+        oc = case["oc_coro"]
+        for key in ("sleep", "resp", "after", "by"):
+            if oc.get(key):
+                yield {**case, "oc_coro": {k: v for k, v in oc.items() if k != key}}
+    for i, g in enumerate(gens):
+        for j, st in enumerate(g):
+            if st.get("by"):
+                yield {**case, "gens": gens[:i] + [g[:j] + [{k: v for k, v in st.items() if k != "by"}] + g[j + 1:]] + gens[i + 1:]}
     if case.get("onconn") is not None:
         yield {**case, "onconn": None}
         oc = case["onconn"]
         for j in range(len(oc)):
             if len(oc) > 1:
                 yield {**case, "onconn": oc[:j] + oc[j + 1:]}
+            for key in ("sleep", "resp", "by"):
+                if oc[j].get(key):
+                    yield {**case, "onconn": oc[:j] + [{k: v for k, v in oc[j].items() if k != key}] + oc[j + 1:]}
     if case.get("after_close", "ebadf") != "ebadf":
         yield {**case, "after_close": "ebadf"}
     if case.get("conn") == "tls":
@@ -744,6 +790,47 @@ def _variants(rng, case: dict) -> None:
         case["rclose"] = rng.choice([0, 0, 0, 1, 2])
 
 
+def gen_occlose_case(rng) -> dict | None:
+    """the client is closed BEFORE the first handle() generator exists, or right where the next one would be created: inside
+    on_connection() as a coroutine (after a sleep / a greeting, by itself or through a helper task it waits for) or as a
+    generator (after having consumed 0-2 requests: closes and returns, or closes and yields once more), or at the last step
+    of a handle() generator which then returns - with requests pipelined behind the close or arriving later, both receive
+    paths, layers high / tcp, every transport behaviour after a local close, single / stapled connection.  After the close
+    no generator may be started (oracle rule 3b), nothing is delivered (3), on_disconnection / connection closed (5, 6)."""
+    c = gen_case(rng, ("high", "high", "tcp"))
+    if c is None:
+        return None
+    j = [rng.randrange(19)]
+    by = lambda: ({"by": "helper"} if rng.random() < 0.35 else {})      # noqa: E731
+    r = rng.random()
+    if r < 0.4:
+        c["onconn"] = None
+        c["oc_coro"] = {"sleep": rng.choice([0, 0, 1, 3]), "resp": rng.random() < 0.4, "close": True,
+                        "after": rng.choice([0, 0, 1]), **by()}
+    elif r < 0.8:
+        oc = [step(rng, j, closing=0.0) for _ in range(rng.choice([1, 1, 2, 3]))]
+        if rng.random() < 0.75:
+            oc[-1].update({"close": True, **by()})          # closes, then returns: the handle() loop comes next
+        else:
+            oc[rng.randrange(len(oc))].update({"pre_close": True, **by()})   # closes, then yields again
+        c["onconn"] = oc
+    else:
+        gens = [g for g in c["gens"] if g]
+        if len(gens) < 2:
+            gens = gens + [[step(rng, j, closing=0.0)] for _ in range(2 - len(gens))]
+        c["gens"] = gens
+        g = gens[rng.randrange(len(gens) - 1)]
+        for st in g:
+            st.pop("pre_close", None)
+            st["close"] = False
+        g[-1].update({"close": True, **by()})               # the generator returns right after the close
+    if rng.random() < 0.5:
+        c["delays"] = [0]           # everything the peer sends is already there (pipelined behind the close)
+    if not c["frames"] and rng.random() < 0.7:
+        c["frames"] = [_valid(c["spec"], sers.gen_packet(rng, c["spec"], 4), c["conv"]) for _ in range(rng.choice([1, 2, 4]))]
+    return c
+
+
 def gen_tls_case(rng) -> dict | None:
     """a session of the in-memory layers over a TLS connection (vlib/c15_tls.py), biased towards the part of the clause
     that only exists there: yielded timeouts that EXPIRE while the server waits for bytes of the wire - before any byte of a
@@ -832,6 +919,31 @@ def _tls_corpus() -> list[dict]:
             cases.append({**base, "frames": [_valid(LINE, "x"), _valid(LINE, "y"), _valid(LINE, "z")], "cuts": [2], "delays": [0, 3, 3],
                           "end": "eof", "end_delay": 2, "rec_cuts": [0, 2], "rec_early": [True],
                           "gens": [[to(1, 1), to(1, 2), to(1, 3), to(1, 4, resp=True, close=True), plain]]})
+    return cases
+
+
+def _occlose_corpus() -> list[dict]:
+    """the handler closes the client inside on_connection() (coroutine: itself / through a helper task; generator: after the
+    login request, then returns) or at the last step of a handle() generator that returns at once - nothing / three requests
+    pipelined behind: no generator is started after the close, nothing is delivered, on_disconnection, connection closed"""
+    ok = sers.enc_val("ok")
+    plain = {"sleep": 0, "timeout": None, "resp": False, "close": False}
+    cases = []
+    for path in ("copy", "buffered"):
+        for layer in ("high", "tcp"):
+            for k in (0, 3):
+                base = {"spec": LINE, "path": path, "layer": layer, "conv": False, "cuts": [1 << 20], "delays": [0],
+                        "end": "eof", "end_delay": 2, "filter": True, "max_recv": 16384, "resp_packet": ok}
+                for by in ({}, {"by": "helper"}):
+                    fr = [_valid(LINE, x) for x in "abc"[:k]]
+                    cases.append({**base, "frames": fr, "onconn": None,
+                                  "oc_coro": {"sleep": 0, "resp": True, "close": True, **by}, "gens": [[plain, plain], [plain]]})
+                    cases.append({**base, "frames": [_valid(LINE, "login")] + fr, "after_close": "data",
+                                  "onconn": [{**plain, "resp": True, "close": True, **by}], "gens": [[plain, plain], [plain]]})
+                    cases.append({**base, "frames": [_valid(LINE, "bye")] + fr, "onconn": None,
+                                  "gens": [[{**plain, "close": True, **by}], [plain, plain]]})
+                cases.append({**base, "frames": [_valid(LINE, x) for x in "abc"[:k]], "onconn": None, "after_close": "eof",
+                              "oc_coro": {"sleep": 1, "resp": False, "close": True, "after": 1}, "gens": [[plain]]})
     return cases
 
 
@@ -934,6 +1046,7 @@ def corpus() -> list[dict]:
                           "gens": [[resp, {**resp, "close": True}, plain]]})
             cases.append({**base, "end": "eof", "filter": True, "wclose": 2, "rclose": 0, "after_close": "data",
                           "gens": [[pre, plain], [plain]]})
+    cases.extend(_occlose_corpus())
     # real loopback TCP: the client closed by another task / another client's handler / the generator / the peer while the
     # connection task is parked in the transport receive or the generator is busy (vlib/c15_loop.py)
     from vlib import c15_loop
@@ -956,6 +1069,7 @@ def generate(rng, tier: str, boost: int):
     lrng = core.sub_rng(sub, "c15-loop")
     trng = core.sub_rng(sub, "c15-tie")
     xrng = core.sub_rng(sub, "c15-tls")
+    orng = core.sub_rng(sub, "c15-occlose")
     for i in range(n):
         c = gen_case(rng, layers)
         if c is not None:
@@ -964,6 +1078,10 @@ def generate(rng, tier: str, boost: int):
             yield c15_loop.gen_case(lrng)       # 250 (quick) / 1250 loopback sessions, spread over the run
         if i % 10 == 5:
             yield c15_tie.gen_case(trng)        # 500 (quick) / 2500 deadline-tie sessions
+        if i % 12 == 7:
+            c = gen_occlose_case(orng)          # 417 (quick) / 2083 sessions closing the client in on_connection() / at a restart
+            if c is not None:
+                yield c
         if i % 8 == 3:
             c = gen_tls_case(xrng)              # 625 (quick) / 3125 sessions over a TLS connection (own random stream)
             if c is not None:
